@@ -3,6 +3,7 @@
 //      -> hex(as_sig_input(head, body)) <skip 0|1>          | panic:<hex msg> | bad-input
 //  canonB <hex method> <hex full url> <n> (<hex name> <hex value>)*n <hex body|N> <hex guid> <hex key>
 //      -> <hex path_and_query> <n> (<hex name> <hex value>)*n <hex authorization value>   (headers of the built request, auth excluded)
+//  mac <hex key text> <hex message|->  -> helpers::compute_signature | bad-key
 use super::util::*;
 use crate::common::hyper_client;
 use std::collections::HashMap;
@@ -96,6 +97,15 @@ pub fn run() {
                     }
                     Ok(Err(_)) => out.line("error"),
                     Err(m) => out.line(&format!("panic:{}", hex(m.as_bytes()))),
+                }
+            }
+            "mac" => {
+                // mac <hex key text> <hex message|->  -> compute_signature(key text, message) | error
+                let key = unhex_str(t[1]);
+                let msg = if t[2] == "-" { vec![] } else { unhex(t[2]) };
+                match crate::common::helpers::compute_signature(&key, &msg) {
+                    Ok(s) => out.line(&s),
+                    Err(_) => out.line("bad-key"),
                 }
             }
             _ => out.line("bad-op"),
